@@ -88,9 +88,16 @@ def gen_plan(seed, tier):
     n = rng.randint(6, 30)
     nv = [0]
 
+    used = []
+
     def fresh():
+        # mostly new values; sometimes a value used before, so that "already
+        # has this value" shortcuts and stale copies of it are exercised
+        if used and rng.random() < 0.3:
+            return rng.choice(used[-6:])
         nv[0] += 1
-        return val(nv[0])
+        used.append(val(nv[0]))
+        return used[-1]
     ops = []
     restricted = backend != "files"
     for _ in range(n):
@@ -122,10 +129,11 @@ def gen_plan(seed, tier):
         elif r < 0.55:
             ops.append({"k": "symref", "name": HEAD,
                         "target": rng.choice([A, B, C_])})
-        elif r < 0.66 and backend == "files":
+        elif r < 0.64 and backend == "files":
             ops.append({"k": "pack", "all": rng.random() < 0.75})
-        elif r < 0.72 and backend == "files":
-            ops.append({"k": rng.choice(["reopen", "switch", "switch"])})
+        elif r < 0.73 and backend == "files":
+            ops.append({"k": rng.choice(["reopen", "switch", "switch",
+                                         "switch"])})
         elif r < 0.75 and backend == "files":
             ops.append({"k": "stale_lock",
                         "name": rng.choice([A, B, T, "packed-refs", HEAD]),
